@@ -162,14 +162,30 @@ def decorate(n, rng):
 
 
 def compose(n, fmt, path, opts):
+    # the caller's option objects are handed over as they are (the same list object on every call of a case)
+    sdn.compose(n, path, **opts)
+
+
+def concrete_opts(n, opts):
     o = dict(opts)
     if o.get('definition_list') == ['__TOP__']:
         o['definition_list'] = [n.top_instance.reference.name]
-    sdn.compose(n, path, **o)
+    return o
 
 
 # a hierarchical EBLIF design (a model with a body instantiated below the top) and one with a wide .names
 EXTRA_SOURCES = {
+    'edif': [('amp.edf', """(edif amp (edifVersion 2 0 0) (edifLevel 0) (keywordMap (keywordLevel 0))
+ (library work (edifLevel 0) (technology (numberDefinition))
+  (cell &_leaf (cellType GENERIC) (view netlist (viewType NETLIST) (interface (port &_i (direction INPUT)) (port o (direction OUTPUT)))))
+  (cell top (cellType GENERIC) (view netlist (viewType NETLIST)
+   (interface (port a (direction INPUT)) (port &_y (direction OUTPUT)))
+   (contents (instance &_u0 (viewRef netlist (cellRef &_leaf (libraryRef work))))
+    (instance &1u (viewRef netlist (cellRef &_leaf (libraryRef work))))
+    (net &_n (joined (portRef a) (portRef &_i (instanceRef &_u0)) (portRef &_i (instanceRef &1u))))
+    (net &_y (joined (portRef &_y) (portRef o (instanceRef &_u0))))))))
+ (design top (cellRef top (libraryRef work))))
+""")],
     'eblif': [('hier.eblif', """# hierarchical
 .model top
 .inputs a b
@@ -237,6 +253,8 @@ def netlists(rng, tier, tmpdir):
 
 def check_one(label, fmt, n, opts, tmpdir, rng):
     bad = []
+    opts = concrete_opts(n, opts)
+    opts_before = repr(opts)
     objs, before = canon_ids(n)
     p1 = os.path.join(tmpdir, 'out1' + EXT[fmt])
     try:
@@ -272,12 +290,12 @@ def check_one(label, fmt, n, opts, tmpdir, rng):
     compose(n, fmt, p3, opts)
     if norm_text(fmt, open(p3).read()) != norm_text(fmt, data1):
         bad.append('compose after queries gave a different text')
+    if repr(opts) != opts_before:
+        bad.append('compose changed the option objects it was given: %s -> %s' % (opts_before, repr(opts)))
     # complete and closed when the call returns: use the composer object directly
     if fmt == 'verilog':
         from spydrnet.composers.verilog.composer import Composer
         o = dict(opts)
-        if o.get('definition_list') == ['__TOP__']:
-            o['definition_list'] = [n.top_instance.reference.name]
         c = Composer(o.get('definition_list', []), o.get('write_blackbox', True), o.get('defparam', False))
         p4 = os.path.join(tmpdir, 'out4.v')
         c.run(n, p4)
